@@ -286,6 +286,16 @@ def strategy(tier):
         st.tuples(st.just("step"), st.integers(0, 3), st.integers(1, 3)),
         st.tuples(st.just("drain"), st.integers(0, 3), st.just(0)),
     ).map(list)
+    # an iterator is opened on a partly bound pattern, advanced, the graph is changed under it (removals that empty whole index buckets,
+    # additions), and the iterator is then run to its end
+    pats = st.sampled_from([[0, -1, -1], [1, -1, -1], [0, -1, 0], [-1, 0, -1], [-1, 1, -1], [-1, -1, 0], [-1, -1, 1], [-1, -1, -1], [0, 0, -1], [-1, 0, 0]])
+    change = st.one_of(st.tuples(st.just("remove"), wsi, wpi, woi), st.tuples(st.just("remove"), si, pi, oi), st.tuples(st.just("remove"), si, pi, oi),
+                       st.tuples(st.just("add"), si, pi, oi)).map(list)
+    script = st.tuples(pats, st.integers(1, 2), st.lists(change, min_size=1, max_size=3)).map(
+        lambda x: [["open"] + x[0], ["step", -1, x[1]]] + x[2] + [["drain", -1, 0]])
+    fill = st.lists(st.tuples(st.just("add"), st.integers(0, 1), pi, st.integers(0, 2)).map(list), min_size=3, max_size=6)
+    item = st.one_of(op.map(lambda o: [o]), op.map(lambda o: [o]), op.map(lambda o: [o]), op.map(lambda o: [o]), op.map(lambda o: [o]),
+                     st.tuples(fill, script).map(lambda x: x[0] + x[1]), script)
     subj = st.one_of(gt.iris(rich=False), gt.bnodes(), st.sampled_from([["u", ""], ["l", "", None, None], ["l", "0", None, gt.XSD + "integer"]]))
     pred = st.one_of(gt.iris(rich=False), st.just(["u", ""]))
     obj = st.one_of(gt.iris(rich=False), gt.bnodes(), gt.literals())
@@ -295,7 +305,7 @@ def strategy(tier):
         "P": st.lists(pred, min_size=2, max_size=3, unique_by=lambda j: tuple(map(str, j))),
         "O": st.tuples(st.lists(obj, min_size=0, max_size=2), st.just([["l", "", None, None], ["l", "0", None, gt.XSD + "integer"], ["l", "false", None, gt.XSD + "boolean"]]))
               .map(lambda p: p[1] + p[0]),
-        "ops": sized_lists(op, 1, 80 if big else 40),
+        "ops": sized_lists(item, 1, 60 if big else 30).map(lambda xs: [o for it in xs for o in it][:120 if big else 60]),
     })
 
 
